@@ -499,6 +499,18 @@ def rule_cnt(ctx: Ctx) -> List[Ob]:
     return obs
 
 
+def _guard_of(fn_node, stmt):
+    """innermost if-condition under which stmt runs (None = unconditional)"""
+    best = None
+    for p in ast.walk(fn_node):
+        if isinstance(p, ast.If):
+            if any(stmt is x for b in p.body for x in ast.walk(b)):
+                best = p.test
+            elif any(stmt is x for b in p.orelse for x in ast.walk(b)):
+                best = ast.UnaryOp(op=ast.Not(), operand=p.test)
+    return best
+
+
 def _cls(mm, c) -> str:
     if mm.in_loop(c):
         return "callback-state"
@@ -548,7 +560,26 @@ def rule_fields(ctx: Ctx) -> List[Ob]:
                 if any(src(b2) == f"checkpoint.{fld}" for b2 in branches):
                     hits += [src(t) for t in (s.targets if isinstance(s, ast.Assign) else [s.target])]
         ok = tgt in hits
+        gwhy = ""
+        if ok:
+            # the restore happens whenever a checkpoint is given (not only under some further condition)
+            from ..core import bool_equiv
+            for s2 in walk_no_nested(mm.f.node):
+                if isinstance(s2, (ast.Assign, ast.AnnAssign)) and getattr(s2, "value", None) is not None and \
+                        tgt in [src(t) for t in (s2.targets if isinstance(s2, ast.Assign) else [s2.target])]:
+                    v2 = s2.value
+                    if isinstance(v2, ast.IfExp) and src(v2.orelse) == f"checkpoint.{fld}":
+                        g2 = ast.UnaryOp(op=ast.Not(), operand=v2.test)
+                    elif isinstance(v2, ast.IfExp) and src(v2.body) == f"checkpoint.{fld}":
+                        g2 = v2.test
+                    elif src(v2) == f"checkpoint.{fld}":
+                        g2 = _guard_of(mm.f.node, s2)
+                    else:
+                        continue
+                    if g2 is None or not bool_equiv(g2, "checkpoint is not None"):
+                        ok = False
+                        gwhy = f"; the restore runs under `{short(g2) if g2 is not None else 'no condition'}`, not exactly when a checkpoint is given"
         obs.append(ob("FIELDS", f"checkpoint.{fld} is restored into {tgt}", mm.f, mm.f.node, ok,
-                      f"assigned to {hits}" + ("" if ok else f" (expected {tgt} among them)"),
+                      f"assigned to {hits}" + ("" if tgt in hits else f" (expected {tgt} among them)") + gwhy,
                       construct=f"{tgt} <- checkpoint.{fld}"))
     return obs
